@@ -1,22 +1,21 @@
---------------------------------- MODULE Trace_C11 ---------------------------------
-(* code -> spec for C11.  Every row of the ndjson file is one assign() / Assign execution  *)
+--------------------------------- MODULE Trace_C12 ---------------------------------
+(* code -> spec for C12.  Every row of the ndjson file is one delete() / Delete execution  *)
 (* recorded from the real library on write-logging containers:                              *)
 (*   {case: <case record of GlomMutate>, obs: {ok, cls, v, heap, log, nfac}}                 *)
-(* For each row the machine of GlomMutate is started on the recorded case and stepped       *)
-(* action by action (Load, Advance.., Judge); after every step the machine's write log must     *)
-(* be a prefix of the recorded one.  At the end the LAW is evaluated on what was recorded:   *)
-(* outcome / returned object / final heap against RefAssign, and on the recorded log:        *)
-(* an effective write to a pre-existing cell that is not the last event is rejected           *)
-(* (attach-last / atomicity), factory calls = absent segments.  Clauses starting with         *)
-(* "drift-" say that the library's internal order of events differs from the mechanism       *)
-(* model while every law holds (reported, not a violation).                                  *)
+(* The machine of GlomMutate is started on the recorded case and stepped action by action    *)
+(* (Load, Advance.., Judge); after every step its write log must be a prefix of the recorded  *)
+(* one.  At the end the LAW is evaluated on what was recorded: outcome / error class /         *)
+(* returned object / final heap against RefDelete (Python del on the addressed element, or     *)
+(* nothing), at most one cell changed and by exactly one entry, and on the recorded log an      *)
+(* effective write that is not the last event is rejected.  Clauses starting with "drift-"     *)
+(* report a different internal event order while every law holds (not a violation).           *)
 EXTENDS GlomMutate, Json, IOUtils
 
 Rows == ndJsonDeserialize(IOEnv.TRACE_FILE)
 VARIABLES row, bad
 tvars == <<mvars, row, bad>>
 
-Blank == [kind |-> "assign", heap0 |-> <<>>, flags |-> <<>>, root |-> VNone, steps |-> <<>>,
+Blank == [kind |-> "delete", heap0 |-> <<>>, flags |-> <<>>, root |-> VNone, steps |-> <<>>,
           val |-> [k |-> "lit", v |-> VNone, steps |-> <<>>], missing |-> "none", facfail |-> 0, ignore |-> FALSE]
 Idle == [case |-> Blank, pc |-> "idle", heap |-> <<>>, cur |-> VNone, idx |-> 0, val |-> VNone,
          stk |-> <<>>, nfac |-> 0, log |-> <<>>, out |-> NoOut, queue |-> <<>>]
@@ -39,12 +38,13 @@ Advance == /\ Running
 LawClause ==
   LET c == case  o == Obs
       cc == ConformClause(c, Ref(c), o.ok, o.cls, o.v, o.heap)
+      changed == {a \in 1..N0(c) : o.heap[a] # c.heap0[a]}
   IN IF cc # "" THEN cc
-     ELSE IF HasStar(c.steps) THEN ""            \* atomicity / attach-last are stated for wildcard-free paths
-     ELSE IF ~AttachLastLog(c, o.log) THEN "attach-last"
-     ELSE IF FactoryCalls(o.log) > AbsentSegments(c) THEN "factory-count"
-     ELSE IF o.ok /\ FactoryCalls(o.log) # AbsentSegments(c) THEN "factory-count"
-     ELSE IF o.ok /\ AbsentSegments(c) > 0 /\ ~KeepsEntries(c, o.heap) THEN "replaced-existing"
+     ELSE IF HasStar(c.steps) THEN ""            \* frame / last-write laws are stated for wildcard-free paths
+     ELSE IF Len(o.heap) # N0(c) \/ Cardinality(changed) > 1 THEN "del-frame"
+     ELSE IF \E a \in changed : ~o.ok \/ Len(o.heap[a].items) # Len(c.heap0[a].items) - 1 THEN "del-frame"
+     ELSE IF ~AttachLastLog(c, o.log) THEN "write-not-last"
+     ELSE IF FactoryCalls(o.log) # 0 THEN "factory-count"
      ELSE ""
 DriftClause ==
   IF bad # "" THEN bad
